@@ -1156,11 +1156,19 @@ static void array_initializer2(Token **rest, Token *tok, Initializer *init, int 
   *rest = tok;
 }
 
+// Unnamed bit-fields do not take part in initialization
+// (C11 6.7.9p9), so positional initializers skip them.
+static Member *skip_unnamed_bitfields(Member *mem) {
+  while (mem && mem->is_bitfield && !mem->name)
+    mem = mem->next;
+  return mem;
+}
+
 // struct-initializer1 = "{" initializer ("," initializer)* ","? "}"
 static void struct_initializer1(Token **rest, Token *tok, Initializer *init) {
   tok = skip(tok, "{");
 
-  Member *mem = init->ty->members;
+  Member *mem = skip_unnamed_bitfields(init->ty->members);
   bool first = true;
 
   while (!consume_end(rest, tok)) {
@@ -1171,13 +1179,13 @@ static void struct_initializer1(Token **rest, Token *tok, Initializer *init) {
     if (equal(tok, ".")) {
       mem = struct_designator(&tok, tok, init->ty);
       designation(&tok, tok, init->children[mem->idx]);
-      mem = mem->next;
+      mem = skip_unnamed_bitfields(mem->next);
       continue;
     }
 
     if (mem) {
       initializer2(&tok, tok, init->children[mem->idx]);
-      mem = mem->next;
+      mem = skip_unnamed_bitfields(mem->next);
     } else {
       tok = skip_excess_element(tok);
     }
@@ -1188,7 +1196,8 @@ static void struct_initializer1(Token **rest, Token *tok, Initializer *init) {
 static void struct_initializer2(Token **rest, Token *tok, Initializer *init, Member *mem) {
   bool first = true;
 
-  for (; mem && !is_end(tok); mem = mem->next) {
+  for (mem = skip_unnamed_bitfields(mem); mem && !is_end(tok);
+       mem = skip_unnamed_bitfields(mem->next)) {
     Token *start = tok;
 
     if (!first)
@@ -1217,14 +1226,16 @@ static void union_initializer(Token **rest, Token *tok, Initializer *init) {
     return;
   }
 
-  init->mem = init->ty->members;
+  init->mem = skip_unnamed_bitfields(init->ty->members);
+  if (!init->mem)
+    error_tok(tok, "union has no member to initialize");
 
   if (equal(tok, "{")) {
-    initializer2(&tok, tok->next, init->children[0]);
+    initializer2(&tok, tok->next, init->children[init->mem->idx]);
     consume(&tok, tok, ",");
     *rest = skip(tok, "}");
   } else {
-    initializer2(rest, tok, init->children[0]);
+    initializer2(rest, tok, init->children[init->mem->idx]);
   }
 }
 
